@@ -424,6 +424,7 @@ var _ = late(func() {
 	p := properties["C07"]
 	p.Rules = append(p.Rules,
 		&Rule{ID: "C07.equal-universal", Floor: 1, Clause: "iterator.Equal returns only the constant false from inside its loop over the other iterators (a universal verdict needs every iterator compared)", Run: ruleEqualUniversal},
+		&Rule{ID: "C07.empty-in-empty-out", Floor: 10, Clause: "xslices (same rule as C19.empty-in-empty-out; xslices.Chunk is the oracle stream.Chunk / iterator.Chunk must agree with): no slice→slice function returns a non-empty result on a path an empty input can take", Run: ruleEmptyInEmptyOut},
 		&Rule{ID: "C07.runs-adjacent", Floor: 3, Clause: "xslices.Runs (same rule as C19.runs-adjacent): consecutive runs are adjacent on every path into the loop, the last run is s[lo:] and is emitted for every non-empty input", Run: ruleRunsAdjacent},
 	)
 })
